@@ -11,10 +11,6 @@ VARIABLES d, e, P, neg
 G == INSTANCE ScpiGFormat
 ExpsFull == (0 - 8)..8
 ExpsSix == {0 - 5, 4}
-PrecsFull == 1..6
-PrecsSix == {4, 5}
-PrecsLow == 1..3
-PrecsHigh == 4..6
 vars == <<d, e, P, neg>>
 Init == /\ d \in {<<k>> : k \in 0..9}
         /\ e \in (IF d = <<0>> THEN {0} ELSE Exps)
